@@ -166,6 +166,173 @@ func run(c *core.Ctx) {
 	for i := c.N(250, 6000, 4000); i > 0; i-- {
 		exec(c, randomCase(c.Rng))
 	}
+	bigStream(c)
+}
+
+// ---- large shapes and extreme aspect ratios: oracle on every case, model on a small sample ----
+
+// edgeSizes: dense around powers of two, up to a few thousand.
+var edgeSizes = []int{15, 16, 17, 31, 32, 33, 63, 64, 65, 127, 128, 129, 255, 256, 257, 1023, 1024, 1025, 2047, 2048, 2049, 4095, 4096, 4097}
+
+func bigSize(r *core.Rand) int {
+	if r.Chance(70) {
+		return edgeSizes[r.Intn(len(edgeSizes))]
+	}
+	return r.Intn(4100)
+}
+
+// fourOrders appends Fill for the rectangle lo..hi in all four corner orders.
+func fourOrders(ops []Op, lx, ly, hx, hy int, v *int) []Op {
+	for _, o := range [][4]int{{lx, ly, hx, hy}, {hx, hy, lx, ly}, {hx, ly, lx, hy}, {lx, hy, hx, ly}} {
+		*v++
+		ops = append(ops, Op{K: "fill", A: []int{o[0], o[1], o[2], o[3], *v}})
+	}
+	return ops
+}
+
+// bigCases builds the structured cases for one shape (w,h >= 1).
+func bigCases(r *core.Rand, w, h int) []Case {
+	v := 5000
+	nv := func() int { v++; return v }
+	var out []Case
+	ctor := func(ops []Op) Case {
+		cs := Case{W: w, H: h, Ops: ops}
+		switch r.Intn(3) {
+		case 0:
+			cs.Ctor = "new"
+		case 1:
+			cs.Ctor, cs.V = "filled", r.Range(-9, 9)
+		default:
+			cs.Ctor, cs.Jagged = "jagged", distinctJagged(w, h)
+		}
+		return cs
+	}
+	xs := []int{0, w / 2, w - 1}
+	ys := []int{0, h / 2, h - 1}
+	// Fill: whole rows, whole columns, single cells, everything, a random rectangle; all four corner orders; then corners out of bounds
+	var ops []Op
+	for _, y := range ys {
+		ops = fourOrders(ops, 0, y, w-1, y, &v)
+	}
+	for _, x := range xs {
+		ops = fourOrders(ops, x, 0, x, h-1, &v)
+	}
+	out = append(out, ctor(ops))
+	ops = nil
+	for _, p := range [][2]int{{0, 0}, {w - 1, h - 1}, {w - 1, 0}, {0, h - 1}, {w / 2, h / 2}} {
+		ops = append(ops, Op{K: "fill", A: []int{p[0], p[1], p[0], p[1], nv()}})
+	}
+	ops = fourOrders(ops, 0, 0, w-1, h-1, &v)
+	x1, x2, y1, y2 := r.Intn(w), r.Intn(w), r.Intn(h), r.Intn(h)
+	ops = fourOrders(ops, x1, y1, x2, y2, &v)
+	ops = fourOrders(ops, w-1-r.Intn(min(w, 3)), h-1-r.Intn(min(h, 3)), w-1, h-1, &v) // at the last row/column
+	for _, o := range [][4]int{{0, 0, w, h - 1}, {0, 0, w - 1, h}, {w, 0, 0, 0}, {0, h, 0, 0}, {-1, 0, w - 1, h - 1}, {0, -1, w - 1, h - 1}, {w - 1, h - 1, w, h}} {
+		ops = append(ops, Op{K: "fill", A: []int{o[0], o[1], o[2], o[3], nv()}})
+	}
+	out = append(out, ctor(ops))
+	// Row / RowSpan windows, in particular at the last row and the last column
+	ops = nil
+	for _, y := range []int{0, h / 2, h - 1, h, -1} {
+		var ws []WOp
+		if y >= 0 && y < h {
+			ws = []WOp{{K: "write", I: 0, V: nv()}, {K: "write", I: w - 1, V: nv()}, {K: "write", I: w / 2, V: nv()},
+				{K: "set", X: w - 1, Y: y, V: nv()}, {K: "set", X: 0, Y: h - 1 - y, V: nv()}}
+		}
+		ops = append(ops, Op{K: "row", A: []int{y}, Ws: ws})
+	}
+	for _, y := range []int{h - 1, 0, h / 2} {
+		for _, sp := range [][2]int{{0, w - 1}, {w - 1, w - 1}, {0, 0}, {w / 2, w - 1}, {r.Intn(w), w - 1}, {0, r.Intn(w)}} {
+			a, b := sp[0], sp[1]
+			ws := []WOp{{K: "write", I: 0, V: nv()}, {K: "write", I: b - a, V: nv()}, {K: "set", X: b, Y: y, V: nv()}, {K: "set", X: a, Y: y, V: nv()}}
+			ops = append(ops, Op{K: "rowspan", A: []int{a, b, y}, Ws: ws})
+		}
+	}
+	for _, o := range [][3]int{{0, w, h - 1}, {0, w - 1, h}, {w, w, 0}, {-1, w - 1, h - 1}, {w - 1, 0, h - 1}, {0, w + 1, 0}} {
+		ops = append(ops, Op{K: "rowspan", A: []int{o[0], o[1], o[2]}})
+	}
+	out = append(out, ctor(ops))
+	// Get / Set at and just beyond the far corner, String, Clone
+	ops = nil
+	for _, p := range [][2]int{{w - 1, h - 1}, {w, h - 1}, {w - 1, h}, {0, h}, {w, 0}, {0, 0}, {w - 1, 0}, {0, h - 1}, {w / 2, h / 2}, {-1, h - 1}, {w - 1, -1}, {w * h, 0}, {0, w * h}, {h, w}} {
+		ops = append(ops, Op{K: "set", A: []int{p[0], p[1], nv()}}, Op{K: "get", A: []int{p[0], p[1]}})
+	}
+	ops = append(ops, Op{K: "dims"}, Op{K: "clone"}, Op{K: "string"})
+	out = append(out, ctor(ops))
+	// constructors: filled; jagged with very many / very long / short / nil rows
+	obsv := []Op{{K: "get", A: []int{w - 1, h - 1}}, {K: "clone"}}
+	out = append(out, Case{W: w, H: h, Ctor: "filled", V: nv(), Ops: obsv})
+	out = append(out, Case{W: w, H: h, Ctor: "jagged", Jagged: distinctJagged(w+r.Intn(3), h+1+r.Intn(3)), Ops: obsv})
+	if w*h <= 2000 {
+		out = append(out, Case{W: w, H: h, Ctor: "jagged", Jagged: distinctJagged(w+1000+r.Intn(64), h), Ops: obsv}) // very long rows
+		out = append(out, Case{W: w, H: h, Ctor: "jagged", Jagged: distinctJagged(w, h+1000+r.Intn(64)), Ops: obsv}) // very many rows
+		out = append(out, Case{W: w, H: h, Ctor: "jagged", Jagged: distinctJagged(w+17, h+1025), Ops: obsv[:1]})     // both
+	}
+	rg := make([][]int, h+r.Intn(3))
+	for y := range rg {
+		switch r.Intn(5) {
+		case 0: // nil row
+		case 1:
+			rg[y] = r.Ints(r.Intn(w+1), 1, 99)
+		case 2:
+			rg[y] = r.Ints(w+1+r.Intn(40), 1, 99)
+		default:
+			rg[y] = r.Ints(w, 1, 99)
+		}
+	}
+	out = append(out, Case{W: w, H: h, Ctor: "jagged", Jagged: rg, Ops: obsv})
+	return out
+}
+
+func bigStream(c *core.Ctx) {
+	r := c.Rng
+	var shapes [][2]int
+	// extreme aspect ratios: 1xN, Nx1, 2xN, Nx2, 3xN, Nx3 for every edge size
+	for _, n := range edgeSizes {
+		for k := 1; k <= 3; k++ {
+			shapes = append(shapes, [2]int{k, n}, [2]int{n, k})
+		}
+	}
+	// larger two-dimensional shapes around powers of two
+	shapes = append(shapes, [][2]int{{33, 65}, {65, 33}, {64, 64}, {65, 63}, {63, 65}, {129, 3}, {3, 129}, {16, 17}, {17, 16}, {17, 17},
+		{32, 33}, {33, 32}, {31, 33}, {128, 32}, {32, 128}, {127, 33}, {15, 257}, {257, 15}, {16, 256}, {256, 16}, {1025, 7}, {7, 1025}, {5, 17}, {17, 5}, {9, 33}, {33, 9}}...)
+	// random: one dimension from the size distribution, the other so that the array stays below ~10000 cells
+	for i := c.N(60, 600, 300); i > 0; i-- {
+		a := 1 + bigSize(r)
+		b := 1 + r.Intn(10000/a+1)
+		if r.Chance(50) && a <= 100 {
+			b = 1 + r.Intn(min(a+3, 10000/a+1))
+		}
+		if r.Bool() {
+			a, b = b, a
+		}
+		shapes = append(shapes, [2]int{a, b})
+	}
+	sampled := 0
+	maxSampled := c.N(100, 400, 0)
+	for _, sh := range shapes {
+		for _, cs := range bigCases(r, sh[0], sh[1]) {
+			c.Count("big_stream")
+			jn := 0
+			for _, row := range cs.Jagged {
+				jn += len(row)
+			}
+			emit := sampled < maxSampled && cs.W*cs.H <= 400 && jn <= 600 && modelCost(cs) <= 1_500_000
+			if emit {
+				sampled++
+			}
+			execE(c, cs, emit)
+		}
+	}
+	c.Note(fmt.Sprintf("large/extreme shapes: %d shapes (1xN, Nx1, 2xN, Nx2, 3xN, Nx3 for N in 15..4097 dense around powers of two; 33x65, 64x64, 65x63, 129x3, ...; random up to ~10000 cells) "+
+		"with Fill of whole rows/columns/single cells/everything/random rectangles in all four corner orders, Row/RowSpan windows at the last row and column, far-corner Get/Set, "+
+		"jagged inputs with >1000 extra rows / >1000 extra values per row: oracle on all, %d of them also evaluated by the model", len(shapes), sampled))
+}
+
+func min(a, b int) int {
+	if a < b {
+		return a
+	}
+	return b
 }
 
 // raggedJagged: rows of every length 0..w+2 in turn, h+1 rows, some nil.
@@ -436,8 +603,23 @@ func coqCtor(cs Case) string {
 	return "(CJagged " + core.ZListList(cs.Jagged) + ")"
 }
 
-func exec(c *core.Ctx, cs Case) {
+// modelCost estimates the work of the Coq model on a case (the model re-reads
+// the whole grid through a list after every call: ~cells^2/2 per call).
+func modelCost(cs Case) int {
+	cells := cs.W * cs.H
+	return cells * cells / 2 * (len(cs.Ops) + 2)
+}
+
+// exec runs a case with oracle and, when the model can evaluate it in reasonable time, the model comparison.
+func exec(c *core.Ctx, cs Case) { execE(c, cs, modelCost(cs) <= 20_000_000) }
+
+func execE(c *core.Ctx, cs Case, emit bool) {
 	c.Begin(cs)
+	if emit {
+		c.Count("model_emitted")
+	} else {
+		c.Count("oracle_only")
+	}
 	w, h := cs.W, cs.H
 	c.Count("ctor_" + cs.Ctor)
 	if w != h && w >= 2 && h >= 2 {
@@ -497,7 +679,9 @@ func exec(c *core.Ctx, cs Case) {
 	})
 	if kind != "" {
 		fail("constructor panicked", kind)
-		c.Emit(fmt.Sprintf("Case %s %s %s (Panic %s) []", core.Z(w), core.Z(h), coqCtor(cs), kind))
+		if emit {
+			c.Emit(fmt.Sprintf("Case %s %s %s (Panic %s) []", core.Z(w), core.Z(h), coqCtor(cs), kind))
+		}
 		return
 	}
 	if !eq2(jag, cs.Jagged) {
@@ -741,5 +925,7 @@ func exec(c *core.Ctx, cs Case) {
 		}
 		steps = append(steps, "("+coqOp+", "+coqObs+")")
 	}
-	c.Emit(fmt.Sprintf("Case %s %s %s (Ok %s) %s", core.Z(w), core.Z(h), coqCtor(cs), grid0, core.List(steps)))
+	if emit {
+		c.Emit(fmt.Sprintf("Case %s %s %s (Ok %s) %s", core.Z(w), core.Z(h), coqCtor(cs), grid0, core.List(steps)))
+	}
 }
